@@ -89,7 +89,12 @@ def checkCnfHasher (kvs okv : List (String × String)) (rhs : String) : String :
   let occ := (cnf.map List.length).sum
   let primes := ((List.range 2000).filter isPrimeB).take occ
   let prod := primes.foldl (· * ·) 1
-  let some cmds := cmdL.mapM (fun s =>
+  -- `m<lit>`: the literal enters the caller's partial model without being announced to the hasher.
+  -- The mirrored hasher run keeps model and decisions in lock step, so it is compared only up to
+  -- the first such command; the specification part below is about (model, hash) pairs and needs
+  -- no mirror.
+  let firstM := (cmdL.findIdx? (·.startsWith "m")).getD cmdL.length
+  let some cmds := (cmdL.take firstM).mapM (fun s =>
       if s == "u" then some CnfUtil.HCmd.push else if s == "o" then some .pop else if s == "h" then some .hash
       else match s.toList with
         | 'd' :: r => (parseLit (String.ofList r)).map fun l => CnfUtil.HCmd.decide l
@@ -106,7 +111,7 @@ def checkCnfHasher (kvs okv : List (String × String)) (rhs : String) : String :
       -- only states that falsify no non-unit clause take part in the comparison
       let falsifies := cnf.any fun c => decide (c.length > 1) && c.all (litFalse pmod)
       if !falsifies then states := (h0, pmod, m) :: states
-      if mh.getD i none != some h0 then return s!"FAIL MODEL hash after command #{i}: model {mh.getD i none} implementation {h0}"
+      if i < firstM && mh.getD i none != some h0 then return s!"FAIL MODEL hash after command #{i}: model {mh.getD i none} implementation {h0}"
     | _ => return "FAIL PARSE hash entry"
   for (h1, m1, s1) in states do
     for (h2, m2, s2) in states do
